@@ -13,6 +13,10 @@
        well-shaped, or in the state of the complete insert (error reported late, e.g. by a buffered writer's flush);
        it returns Ok only in the latter.  Other keys are never affected.  Retry: the post-state satisfies the
        invariants C02/C05 start from, so the same call then behaves as in the fault-free theorems.
+   (4) truthful success of a write: a close / commit that answers Ok in ANY faulty run leaves a file at the content path
+       of the hashed bytes — the writer's own bytes (the rename went through) or a file that was already there (the rename
+       failed and exists() said yes: by (2) it carries the same digest) — and a keyed commit answers Ok only if the index
+       insert answered Ok from that state, which by (3) is the state of the complete insert.
    Partial: kernel errno semantics and the mapping of library-internal syscalls to model steps (one model step may be
    several syscalls) are exercised by the strace fault sweep, compared by oracle, not step for step. *)
 From CC Require Import Bytes Codec Utf8 Lines Json Sri Record Fs Prog Api Crash BytesP CodecP LinesP FsP ProgP SriP RecordP IndexP ReadP WriteP CommitP RemoveP TotalP CrashP CrashIdxP FaultP.
@@ -54,6 +58,25 @@ Theorem C13_insert_faulty f key o now r f' :
   (forall i, r = Ok i -> f' = snd (run (insert hash key o now) f)).
 Proof. exact (insert_faulty hash f key o now r f'). Qed.
 
+Theorem C13_close_truthful f w sri f' :
+  WInv f w -> frun (close_writer hash w) f (Ok sri) f' ->
+  sri = sri_of hash (w_algo w) (w_data w) /\
+  (lookup f' (InCache (cpath hash (w_algo w) (w_data w))) = Some (File (w_data w)) \/
+   resolve f' (InCache (cpath hash (w_algo w) (w_data w))) <> None).
+Proof. exact (close_writer_faulty_ok hash HL f w sri f'). Qed.
+
+Theorem C13_commit_truthful f w now i f' :
+  WInv f w -> frun (commit hash w now) f (Ok i) f' ->
+  exists f1,
+    frun (close_writer hash w) f (Ok (sri_of hash (w_algo w) (w_data w))) f1 /\
+    (lookup f1 (InCache (cpath hash (w_algo w) (w_data w))) = Some (File (w_data w)) \/
+     resolve f1 (InCache (cpath hash (w_algo w) (w_data w))) <> None) /\
+    match w_key w with
+    | None => f' = f1 /\ i = sri_of hash (w_algo w) (w_data w)
+    | Some key => exists o', frun (insert hash key o' now) f1 (Ok i) f'
+    end.
+Proof. exact (commit_faulty_ok hash HL f w now i f'). Qed.
+
 (* what SameIdx gives: the index area is well-shaped, every key's lookup and every non-index location unchanged *)
 Theorem C13_same_idx f c :
   SameIdx hash f c -> IndexInv c /\ (forall k, abs_idx hash c k = abs_idx hash f k) /\ (forall l, ~ is_index l -> lookup c l = lookup f l).
@@ -83,3 +106,5 @@ Print Assumptions C13_content_inv_faulty.
 Print Assumptions C13_commit_faulty_content.
 Print Assumptions C13_insert_faulty.
 Print Assumptions C13_same_idx.
+Print Assumptions C13_close_truthful.
+Print Assumptions C13_commit_truthful.
